@@ -246,9 +246,15 @@ var _ *tls.Config // used by //@ func headers
 // C18: APPEND literals. Without a continuation request (non-synchronising
 // literal) the payload is at most 4096 bytes and LITERAL- is available.
 
+// A continuation request is registered only for a literal that will really be
+// announced: once the command's encoder has failed (an earlier literal was
+// refused) nothing more is written, and a request registered then would stay
+// in the queue for ever and swallow the "+" meant for a later command.
+//
 //@ func (ce *commandEncoder) Literal(size int64) (result io.WriteCloser)
-//@   props C18:callsite,post,pre@call
-//@   callsite Encoder.Literal(e *imapwire.Encoder, sz int64, sync *imapwire.ContinuationRequest) requires sz == size && (sync == nil ==> size <= 4096 && imap.HasLiteralMinusSpec(ce.client.caps))
+//@   props C18:callsite,post,pre@call C12:callsite
+//@   callsite Encoder.Literal(e *imapwire.Encoder, sz int64, sync *imapwire.ContinuationRequest) requires sz == size && (sync == nil ==> (size <= 4096 && imap.HasLiteralMinusSpec(ce.client.caps)) || e.Err() != nil)
+//@   callsite Client.registerContReq(c *Client, cmd command) requires ce.Encoder.Err() == nil
 
 // beginCommand configures the wire encoder from the negotiated capabilities.
 //
